@@ -752,7 +752,7 @@ func (vfs *MemFS) removeAll(parent *dirNode) error {
 		return vfs.err.PermDenied
 	}
 
-	for _, child := range parent.children {
+	for name, child := range parent.children {
 		if c, ok := child.(*dirNode); ok {
 			err := vfs.removeAll(c)
 			if err != nil {
@@ -760,6 +760,9 @@ func (vfs *MemFS) removeAll(parent *dirNode) error {
 			}
 		}
 
+		// The entry is removed together with the node, so that an error
+		// in a later entry leaves a consistent directory.
+		parent.removeChild(name)
 		child.delete()
 	}
 
